@@ -552,4 +552,29 @@ Proof.
   all: cbn [andb negb orb].
   all: (split; [try reflexivity | eapply rc_frame; [exact Hl | exact HR | ]; intros id; unfold cnt_loc; cbn [slots held];
         try (specialize (Hd id)); try lia]).
-  Show.
+  - (* make_shared *)
+    rewrite rc_of_app. destruct hd; [discriminate|]. cbn [cnt_opt pid fst].
+    rewrite (Nat.eqb_sym (S (length (heap g))) id). destruct (Nat.eqb id (S (length (heap g)))); lia.
+  - (* Drop *) pose proof (cnt_setslot id s None sl). cbn [cnt_opt] in *. lia.
+  - (* ReadObj *) match goal with H : getslot _ sl = Some _ |- _ => rewrite (alive_pos _ _ (Hsl _ _ H)) end. reflexivity.
+  - (* simple method, no fault *)
+    unfold harg in *. cbn [held] in *.
+    match goal with H1 : apply_sop _ _ _ _ = _, H2 : sop_rc _ _ _ _ _ = _ |- _ =>
+      destruct (sop_local _ _ _ _ _ _ _ _ _ _ _ _ HSt H1 H2) as [-> _] end; [|reflexivity].
+    intros id. specialize (Hle id). lia.
+  - (* simple method, counts *)
+    unfold harg in *. cbn [held] in *.
+    match goal with H1 : apply_sop _ _ _ _ = _, H2 : sop_rc _ _ _ _ _ = _ |- _ =>
+      destruct (sop_local _ _ _ _ _ _ _ _ _ _ _ _ HSt H1 H2) as [_ E] end.
+    + intros id'. specialize (Hle id'). lia.
+    + specialize (E id). lia.
+  - (* removal by predicate *)
+    match goal with H : lookup _ (omap g) = Some _ |- _ => pose proof (cnt_del id _ _ _ H) as Hc end.
+    rewrite cnt_opt_some in Hc. lia.
+  - (* find by predicate *)
+    destruct hd; [discriminate|]. rewrite cnt_opt_some. cbn [cnt_opt]. lia.
+  - (* the iterator is valid *)
+    exfalso. destruct (call_valid _ _ _ _ _ HI Hp) as [pre [q [suf [_ [E _]]]]]. congruence.
+  - (* the result goes into the slot *)
+    match goal with |- context [setslot ?b hd sl] => pose proof (cnt_setslot id b hd sl) end. cbn [cnt_opt] in *. lia.
+Qed.
